@@ -45,6 +45,12 @@ theorem c06_conc_exactly_once_at_quiescence {s : Conc.Events.St} (h : Conc.Event
     (s.cell (s.keyOf n) ≠ some n ∧ s.delLog.count n = 1 ∧ s.atomicLog.count n = 1) :=
   Conc.Events.quiescent_exact h hq n hn
 
+/-- for one key, the atomic handler sees the departures in the order the values were installed (node identities are handed out
+    in installation order): among the reports of one key, identities increase -/
+theorem c06_conc_atomic_order_per_key {s : Conc.Events.St} (h : Conc.Events.Reach s) :
+    s.atomicLog.Pairwise (fun a b => s.keyOf a = s.keyOf b → a < b) :=
+  Conc.Events.atomic_in_installation_order h
+
 /-- non-vacuity: key 3 is written twice, the replaced node is evicted too late (no step exists for that), the second one is
     invalidated; after both tasks ran: nodes 0 and 1 each reported once -/
 theorem c06_conc_example : ∃ s, Conc.Events.Reach s ∧ s.queue = [] ∧ s.delLog = [0, 1] ∧ s.atomicLog = [0, 1] := by
